@@ -43,3 +43,23 @@ Proof.
     split; [split; [assumption|apply N.le_min_r]|]. split; [lia|reflexivity].
   - rewrite N.min_id. destruct (N.ltb_spec last first); intros Q; inversion Q; subst. split; [split; [assumption|apply N.le_refl]|reflexivity].
 Qed.
+
+(* the two comparisons that apply the 65534 rule, as the current source text makes them: index.rs `in_gap` (does a timestamp lie
+   beyond the reach of a 16 bit delta behind a full timestamp - the seek's choice between a section and the gap behind it) and
+   the test of Data::push_data that decides between a delta and a new full timestamp *)
+Theorem gen_in_gap_is_model val gs : in_gap val gs = BSgen.SeekGen.gen_in_gap val gs.
+Proof. reflexivity. Qed.
+
+Theorem gen_in_gap_spec val gs b : BSgen.SeekGen.gen_in_gap val gs = Ok b -> (b = true <-> (gs + 65534 < val)%N).
+Proof.
+  unfold BSgen.SeekGen.gen_in_gap, u64_add. change BSgen.Consts.max_small_ts with 65534%N.
+  destruct (N.ltb_spec (gs + 65534) U64); cbn [bind]; [|discriminate].
+  intros Q. inversion Q; subst. apply N.ltb_lt.
+Qed.
+
+(* the test the model's push_data makes (Data.push_data: `BSgen.Consts.max_small_ts <? diff`) *)
+Theorem gen_starts_section_is_model diff : BSgen.SeekGen.gen_starts_section diff = (BSgen.Consts.max_small_ts <? diff)%N.
+Proof. reflexivity. Qed.
+
+Theorem gen_starts_section_spec diff : BSgen.SeekGen.gen_starts_section diff = true <-> (65534 < diff)%N.
+Proof. unfold BSgen.SeekGen.gen_starts_section. change BSgen.Consts.max_small_ts with 65534%N. apply N.ltb_lt. Qed.
